@@ -572,7 +572,7 @@ Section BlockTransfer.
         - eapply extends_lt; [exact He|apply Hnext; exact Hy].
         - eapply successors_valid; [apply Q_swf; exact Hq1|apply Hns; exact Hy]. }
       destruct b.
-      + split; [eapply Q_seeds; eauto|].
+      + split; [apply (Q_seeds d x d1 Hq Hx Hex Ee)|].
         split; [eapply extends_trans; [exact He|apply set_empty_seeds_extends]|].
         split; [intros y Hy; rewrite size_set_empty_seeds; apply Hvalid; exact Hy|].
         split; [discriminate|]. intros _. right. split; [exact Hex|].
@@ -693,3 +693,94 @@ Section BlockTransfer.
     split; [exact J1|]. split; [exact J2|]. intro Hf. apply J3. lia.
   Qed.
 End BlockTransfer.
+
+(* ================================================================== *)
+(* 5. SWF, extends, termination                                        *)
+(* ================================================================== *)
+
+Lemma ensure_all_SWF : forall N subs d p, SWF N d -> p < size d ->
+  (forall m, In m subs -> length m = nvars N) ->
+  SWF N (ensure_all N d p subs) /\ p < size (ensure_all N d p subs).
+Proof.
+  intros N subs d p Hswf Hp Hlen.
+  apply (C_ensure_all N p (fun d0 => SWF N d0 /\ p < size d0) (fun m => length m = nvars N)).
+  - intros d0 m [H1 H2] Hm. destruct (ensure_child_spec N d0 p m H1 Hm H2) as (S1 & S2 & _).
+    split; [exact S1|eapply extends_lt; eauto].
+  - split; assumption.
+  - exact Hlen.
+Qed.
+
+Lemma set_empty_seeds_SWF : forall N d i, SWF N d -> SWF N (set_empty_seeds d i).
+Proof.
+  intros N d i H. apply (set_empty_seeds_flag (SWF N)); [|exact H].
+  intros d0 f Hf H0. apply upd_flag_SWF; assumption.
+Qed.
+
+Lemma ff_step_SWF : forall N d x, SWF N d -> x < size d -> SWF N (ff_step N d x).
+Proof.
+  intros N d x Hswf Hx. unfold ff_step. apply set_empty_seeds_SWF.
+  apply upd_flag_SWF; [constructor|].
+  apply (ensure_all_SWF N _ d x Hswf Hx). intros m Hin. eapply ff_motifs_len; eauto.
+Qed.
+
+Lemma expand_one_eq_fst : forall N cfg d x d1 r, expand_one N cfg d x = (d1, r) ->
+  d1 = fst (expand_one N cfg d x).
+Proof. intros N cfg d x d1 r E. rewrite E. reflexivity. Qed.
+
+Lemma block_SWF_all : forall fuel N cfg d maa opt sz tape, SWF N d ->
+  SWF N (fst (expand_block fuel N cfg d maa opt sz tape)) /\
+  extends d (fst (expand_block fuel N cfg d maa opt sz tape)) /\
+  (max_nodes N + 2 <= fuel -> snd (expand_block fuel N cfg d maa opt sz tape) <> RFuel).
+Proof.
+  intros fuel N cfg d maa opt sz tape Hswf.
+  apply (BT_block N cfg opt (SWF N)).
+  - auto.
+  - intros d0 x H0 Hx _. apply expand_one_SWF; assumption.
+  - intros d0 x d1 H0 Hx _ E. apply set_empty_seeds_SWF.
+    rewrite (expand_one_eq_fst _ _ _ _ _ _ E). apply expand_one_SWF; assumption.
+  - intros d0 x _ H0 Hx _ _. apply ff_step_SWF; assumption.
+  - exact Hswf.
+Qed.
+
+Theorem expand_block_SWF : forall fuel N cfg d maa opt sz tape, SWF N d ->
+  SWF N (fst (expand_block fuel N cfg d maa opt sz tape)).
+Proof. intros fuel N cfg d maa opt sz tape H. apply (block_SWF_all fuel N cfg d maa opt sz tape H). Qed.
+
+Theorem expand_block_extends : forall fuel N cfg d maa opt sz tape, SWF N d ->
+  extends d (fst (expand_block fuel N cfg d maa opt sz tape)).
+Proof. intros fuel N cfg d maa opt sz tape H. apply (block_SWF_all fuel N cfg d maa opt sz tape H). Qed.
+
+(* every level that hands over a non-empty next level expands a node that was not expanded
+   before, and a well-formed diagram has at most max_nodes N nodes *)
+Theorem expand_block_terminates : forall fuel N cfg d maa opt sz tape, SWF N d ->
+  max_nodes N + 2 <= fuel -> snd (expand_block fuel N cfg d maa opt sz tape) <> RFuel.
+Proof. intros fuel N cfg d maa opt sz tape H. apply (block_SWF_all fuel N cfg d maa opt sz tape H). Qed.
+
+(* a generic instance: Q = SWF /\ P *)
+Lemma block_transfer : forall N cfg opt (P : sd -> Prop),
+  (forall d x, SWF N d -> P d -> x < size d -> n_exp (get d x) = false ->
+     P (fst (expand_one N cfg d x))) ->
+  (forall d i, SWF N d -> P d -> i < size d -> n_exp (get d i) = true -> P (set_empty_seeds d i)) ->
+  (forall d x, opt = true -> SWF N d -> P d -> x < size d -> n_exp (get d x) = false ->
+     sources_in_b N (n_space (get d x)) <> [] -> P (ff_step N d x)) ->
+  forall fuel d maa sz tape, SWF N d -> P d -> P (fst (expand_block fuel N cfg d maa opt sz tape)).
+Proof.
+  intros N cfg opt P Hexp Hseeds Hff fuel d maa sz tape Hswf HP.
+  assert (H : SWF N (fst (expand_block fuel N cfg d maa opt sz tape)) /\
+              P (fst (expand_block fuel N cfg d maa opt sz tape))).
+  { apply (BT_block N cfg opt (fun d0 => SWF N d0 /\ P d0)).
+    - intros d0 [H _]. exact H.
+    - intros d0 x [H1 H2] Hx Hex. split; [apply expand_one_SWF; assumption|apply Hexp; assumption].
+    - intros d0 x d1 [H1 H2] Hx Hex E.
+      assert (Hs1 : SWF N d1).
+      { rewrite (expand_one_eq_fst _ _ _ _ _ _ E). apply expand_one_SWF; assumption. }
+      split; [apply set_empty_seeds_SWF; exact Hs1|].
+      apply Hseeds.
+      + exact Hs1.
+      + rewrite (expand_one_eq_fst _ _ _ _ _ _ E). apply Hexp; assumption.
+      + pose proof (expand_one_extends N cfg d0 x) as He. rewrite E in He. eapply extends_lt; eauto.
+      + eapply expand_one_exp; eauto.
+    - intros d0 x Ho [H1 H2] Hx Hex Hsrc. split; [apply ff_step_SWF; assumption|apply Hff; assumption].
+    - split; assumption. }
+  exact (proj2 H).
+Qed.
